@@ -39,6 +39,10 @@ UUID_RE = re.compile(
 )
 
 
+# set by a task before it explores: emitted events are fed back as input events, as process_events does
+FEED_BACK = [False]
+
+
 # --------------------------------------------------------------------------- build
 def parse_program(source: str):
     return parse_colang_file(
@@ -288,6 +292,21 @@ def step(state: State, concrete_event: dict, vector, uid_n: int, budget=None):
             state,
             concrete_event if isinstance(concrete_event, Event) else dict(concrete_event),
         )
+        if FEED_BACK[0]:
+            # what RuntimeV2_x.process_events does with the events a step emits: they are processed as input events
+            # as well (repeatedly, until a round emits nothing); the caller sees all emitted events
+            emitted = list(state.outgoing_events)
+            queue = list(emitted)
+            rounds = 0
+            while queue and rounds < 50:
+                rounds += 1
+                nxt = []
+                for ev in queue:
+                    sm.run_to_completion(state, dict(ev))
+                    nxt.extend(state.outgoing_events)
+                emitted.extend(nxt)
+                queue = nxt
+            state.outgoing_events = emitted
     finally:
         seams.CountingDeque.budget = None
     return CHOICE.points[:], UIDS.n, seams.CountingDeque.pops
@@ -572,6 +591,7 @@ class Explorer:
                     "source": self.source,
                     "extra_sources": list(self.extra_sources),
                     "history": _hist_json(hist),
+                    "feed_back": FEED_BACK[0],
                     "detail": v.detail,
                 },
             }
